@@ -7,6 +7,8 @@
   returns 32 bytes).
 -/
 import Buidl.Proofs.AddressDispatch
+import Buidl.Proofs.Bech32Switch
+import Buidl.Proofs.Bech32Sound
 namespace Buidl.Props.C09
 open Buidl Buidl.Base58 Buidl.Bech32 Buidl.Address
 
@@ -80,6 +82,10 @@ theorem base58check_checksum (hash256 : Bytes → Bytes) (s : Str) :
 
 example : encodeBase58 [0, 0, 1, 2, 3] = some "11Ldp".toList ∧ decodeCombined "11Ldp".toList = some [0, 0, 1, 2, 3] := by
   decide
+
+/-- a string that gets past the decoding loop consists of Base58 characters only -/
+theorem base58_decode_chars (s : Str) (c : Bytes) (h : decodeCombined s = some c) : ∀ x ∈ s, x ∈ Base58.alphabet :=
+  decodeCombined_chars h
 
 /-! ## Bech32 / Bech32m -/
 
@@ -199,14 +205,24 @@ theorem bech32_single_substitution (net : Str) (pre post : Str) (x y : Char) (hx
     by_cases h1 : '1' ∈ chars <;> simp [h1]
   · exact Or.inl (splitHrp_regtest '1' chars)
 
-/-- Two substituted characters in the data part of a valid segwit address, at most 88
-    characters between them (an address has at most 90 characters), the checksum constant
-    unchanged (the version character is not one of them, or stays on the same side of `q`):
-    refused. -/
+/-- the same at the level of checksums when the target constant switches: two words differing
+    in two symbols never have checksums that differ by `1 ⊕ 0x2bc830a3`, provided the first
+    differing symbol is followed by at most 89 symbols (kernel table over the 2790 single-error
+    syndromes, searched through a verified binary search tree) -/
+theorem polymod_double_substitution_switch (pre mid post : List Nat) (x y x' y' : Nat)
+    (hx : x < 32) (hy : y < 32) (hx' : x' < 32) (hy' : y' < 32) (hxy : x ≠ y) (hxy' : x' ≠ y')
+    (hlen : mid.length + post.length + 1 ≤ 89) :
+    polymod (pre ++ x :: mid ++ x' :: post) ^^^ polymod (pre ++ y :: mid ++ y' :: post) ≠ (1 ^^^ 0x2bc830a3) :=
+  polymodFrom_double_switch _ pre mid post x y x' y' hx hy hx' hy' hxy hxy' hlen
+
+/-- ANY two substituted characters in the data part of a valid segwit address are refused, when
+    the first of them is followed by at most 89 characters — which covers every address of at
+    most 90 characters.  This includes the case in which one of the two is the version
+    character and the checksum constant switches between 1 and 0x2bc830a3. -/
 theorem bech32_double_substitution (net : Str) (pre mid post : Str) (x y x' y' : Char) (hxy : x ≠ y) (hxy' : x' ≠ y')
     (r : Str × Nat × Bytes)
     (h : decodeBech32 (hrpOf net ++ '1' :: (pre ++ x :: mid ++ x' :: post)) = some r)
-    (hmid : mid.length < 89) (hcase : pre ≠ [] ∨ (x = 'q' ↔ y = 'q')) :
+    (hlen : mid.length + post.length + 1 ≤ 89) :
     decodeBech32 (hrpOf net ++ '1' :: (pre ++ y :: mid ++ y' :: post)) = none := by
   have key : ∀ hrp : Str,
       (∀ chars, splitHrp (hrp ++ '1' :: chars) = some (hrp, chars) ∨ splitHrp (hrp ++ '1' :: chars) = none) →
@@ -218,7 +234,7 @@ theorem bech32_double_substitution (net : Str) (pre mid post : Str) (x y x' y' :
     · rw [e] at h0
       rcases hsplit (pre ++ y :: mid ++ y' :: post) with e' | e'
       · rw [e']
-        exact decodeBody_double_subst hrp pre mid post x y x' y' hxy hxy' r h0 hmid hcase
+        exact decodeBody_double_subst_any hrp pre mid post x y x' y' hxy hxy' r h0 hlen
       · rw [e']
     · rw [e] at h0; cases h0
   apply key (hrpOf net) _ h
@@ -230,9 +246,29 @@ theorem bech32_double_substitution (net : Str) (pre mid post : Str) (x y x' y' :
     by_cases h1 : '1' ∈ chars <;> simp [h1]
   · exact Or.inl (splitHrp_regtest '1' chars)
 
--- UNPROVED (ext): two substitutions one of which changes the version character between `q` and
--- another character (the checksum constant switches between 1 and 0x2bc830a3).  Needs the
--- 2791-entry syndrome table of Appendix A; correspondence-only (sampled double substitutions).
+/-- What `decode_bech32` accepts: every data character is in the (lower-case) bech32 alphabet,
+    the version is below 32 (observation O09b: versions 17..31 are not refused) and the program
+    has 2..40 bytes. -/
+theorem bech32_decode_sound (s : Str) (r : Str × Nat × Bytes) (h : decodeBech32 s = some r) :
+    ∃ hrp raw, splitHrp s = some (hrp, raw) ∧ (∀ c ∈ raw, c ∈ Bech32.alphabet) ∧
+      r.2.1 < 32 ∧ 2 ≤ r.2.2.length ∧ r.2.2.length ≤ 40 := by
+  unfold decodeBech32 at h
+  cases hs : splitHrp s with
+  | none => rw [hs] at h; cases h
+  | some p =>
+    obtain ⟨hrp, raw⟩ := p
+    rw [hs] at h
+    exact ⟨hrp, raw, rfl, decodeBody_chars h, decodeBody_bounds h⟩
+
+/-- The decoder looks characters up in the lower-case alphabet without case folding: a data part
+    containing an upper-case letter (or any other foreign character) is refused.  (BIP173 also
+    allows the all-upper-case form; this code does not implement it — observation O09c.) -/
+theorem bech32_uppercase_rejected (hrp raw : Str) (c : Char) (hc : c ∈ raw) (h1 : 'A' ≤ c) (h2 : c ≤ 'Z') :
+    decodeBody hrp raw = none := by
+  cases h : decodeBody hrp raw with
+  | none => rfl
+  | some r => exact absurd (decodeBody_chars h c hc) (upper_not_in_alphabet c h1 h2)
+
 
 /-- the BIP173 test address is accepted, so the hypothesis of the substitution theorems
     (a valid address of the shape `hrp ‖ "1" ‖ data`) is satisfiable -/
